@@ -470,7 +470,7 @@ def coq_item(kind, v):
     if kind == 'originator-id':
         return f'IOriginator {zlist(v)}'
     if kind == 'cluster-list':
-        return f'ICluster {zlist([b for x in v for b in x])}'
+        return f'ICluster {zlist([int.from_bytes(bytes(x), "big") for x in v])}'
     if kind == 'extended-community':
         return f'IExtended {zlist([ext_value(e) for e in v])}'
     if kind == 'large-community':
